@@ -79,6 +79,22 @@ pub fn incremental_case(r: &mut Rng, d: &RDoc, xref_stream: bool, steps: usize) 
     Ok(Case { bytes, expect, kind: if xref_stream { "incremental/xref-stream" } else { "incremental/xref-table" } })
 }
 
+/// a document whose streams were deflated by the library before it is saved (Document::compress): the file has
+/// to describe the compressed streams - Length of the deflated bytes, Filter - exactly
+pub fn compressed_case(r: &mut Rng, d: &RDoc, xref_stream: bool) -> Result<Case, String> {
+    let mut doc = to_lo_doc(d, xref_stream);
+    for _ in 0..1 + r.usize_below(2) {
+        let unit: &[u8] = *r.pick(&[&b"BT /F1 12 Tf (text) Tj ET\n"[..], b"q 1 0 0 1 0 0 cm Q\n", b"0 0 0 rg "]);
+        let body = unit.repeat(8 + r.usize_below(40));
+        doc.add_object(lopdf::Object::Stream(lopdf::Stream::new(lopdf::Dictionary::new(), body)));
+    }
+    doc.compress();
+    let expect = from_lo_doc(&doc);
+    let mut bytes = vec![];
+    doc.save_to(&mut bytes).map_err(|e| format!("save_to failed: {}", e))?;
+    Ok(Case { bytes, expect, kind: if xref_stream { "compressed/xref-stream" } else { "compressed/xref-table" } })
+}
+
 fn run_one(seed: u64, shard: u64, i: u64, out: &mut ShardOut) {
     let mut r = Rng::for_case(seed, TAG, shard, i);
     let dcfg = gen::DocCfg { max_objects: 30, max_depth: 1 + r.usize_below(5), generations: true, sparse: true };
@@ -86,7 +102,9 @@ fn run_one(seed: u64, shard: u64, i: u64, out: &mut ShardOut) {
     let xs = r.bool();
     let variant = i % 3;
     let case = match variant {
-        0 | 1 => plain_case(&d, xs),
+        0 => plain_case(&d, xs),
+        1 if i % 2 == 1 => compressed_case(&mut r, &d, xs),
+        1 => plain_case(&d, xs),
         _ => {
             let steps = 1 + r.usize_below(3);
             incremental_case(&mut r, &d, xs, steps)
@@ -136,7 +154,7 @@ pub fn run(cfg: &RunCfg) -> (PropMeta, ShardOut, Map<String, Value>) {
     });
     let meta = PropMeta {
         level: "exploration",
-        rule: "C01-style random documents saved by Document::save_to (xref table / xref stream) and by IncrementalDocument::save_to after 1..3 rounds of random replace/add edits; every produced file is parsed by the independent strict reader (header + binary comment, startxref/Prev chain, 20-byte entries, W/Index/Length consistency, exact object-header offsets, Length == bytes up to endstream, Size > every number, every byte accounted, every object named by a section) and the recovered document is compared with the saved one. distinct = distinct file bytes.".into(),
+        rule: "C01-style random documents saved by Document::save_to (xref table / xref stream; one case in six after Document::compress has deflated added redundant streams) and by IncrementalDocument::save_to after 1..3 rounds of random replace/add edits; every produced file is parsed by the independent strict reader (header + binary comment, startxref/Prev chain, 20-byte entries, W/Index/Length consistency, exact object-header offsets, Length == bytes up to endstream, Size > every number, every byte accounted, every object named by a section) and the recovered document is compared with the saved one. distinct = distinct file bytes.".into(),
         assumptions: vec![
             "the strict reader demands only what the property lists (e.g. it does not require an xref stream to list object 0, nor a single subsection in a never-updated file)".into(),
             "for incremental files version/binary mark are those of the first header".into(),
